@@ -184,6 +184,26 @@ def translate_site(src_root, site):
             if site.get("pick") is not None: hits = [h for h in hits if site["pick"] in ast.unparse(h)]
         if len(hits) != 1: raise Unsupported(f"{len(hits)} places match `{where}` in {site['fn']} (expected one)")
         body = f"  {depth(hits[0])}"; rty = "Nat"
+    elif mode == "order":
+        # in which order a collection is written into the configuration document: 1 a canonical (sorted) order, 0 the order the
+        # container happens to iterate in (insertion order of a dict, hash order of a set)
+        def order(e):
+            if isinstance(e, ast.IfExp): return min(order(x) for x in (e.body, e.orelse) if not (isinstance(x, ast.Constant) and x.value is None))
+            if isinstance(e, ast.Call):
+                f = ast.unparse(e.func)
+                if f == "sorted": return 1
+                if f in ("dict", "list", "tuple") and len(e.args) == 1: return order(e.args[0])
+                return 0
+            if isinstance(e, (ast.DictComp, ast.ListComp, ast.GeneratorExp)) and len(e.generators) == 1: return order(e.generators[0].iter)
+            if isinstance(e, (ast.Name, ast.Attribute, ast.Subscript, ast.SetComp, ast.Set, ast.Dict)): return 0
+            raise Unsupported(f"ordering expression `{ast.unparse(e)[:60]}`")
+        where = site["where"]
+        if where == "return":
+            hits = [n.value for n in ast.walk(fn) if isinstance(n, ast.Return) and n.value is not None]
+        else:
+            hits = [n.value for n in ast.walk(fn) if isinstance(n, ast.Assign) and any(ast.unparse(t) == where for t in n.targets)]
+        if len(hits) != 1: raise Unsupported(f"{len(hits)} places match `{where}` in {site['fn']} (expected one)")
+        body = f"  {order(hits[0])}"; rty = "Nat"
     elif mode == "branch":
         ifs = [n for n in ast.walk(fn) if isinstance(n, ast.If)]
         ifs.sort(key=lambda n: (n.lineno, n.col_offset))
@@ -294,6 +314,21 @@ SITES["C14"] = [
     dict(file="pipeline/builder.py", cls="PipelineBuilder", fn="build_config", mode="copy", where="edges", lean="buildConfigEdgesCopy", atoms={}),
     dict(file="data/builder.py", cls="DatasetBuilder", fn="__init__", mode="copy", where="self.schema", pick="name.schema", lean="builderFromDatasetSchemaCopy", atoms={}),
     dict(file="data/builder.py", cls="DatasetBuilder", fn="build_container", mode="copy", where="return:DataContainer", lean="buildContainerSchemaCopy", atoms={}),
+]
+
+SITES["C13"] = [
+    dict(file="pipeline/config.py", cls="PipelineInput", fn="_serialize_types", mode="order", where="return", lean="inputTypesOrder", atoms={}),
+    dict(file="pipeline/builder.py", cls="PipelineBuilder", fn="build_config", mode="order", where="c_cfg.inputs", lean="componentInputsOrder", atoms={}),
+    dict(file="pipeline/builder.py", cls="PipelineBuilder", fn="build_config", mode="order", where="cfg.aliases", lean="aliasesOrder", atoms={}),
+]
+
+SITES["C16"] = [
+    dict(file="data/items.py", cls="ItemList", fn="numbers", mode="branch", select="vocabulary is not None", lean="numbersAltBranch",
+         atoms={"vocabulary": ("vocabulary", O), "vocabulary is not self._vocab": ("differs", B)}),
+    dict(file="data/items.py", cls="ItemList", fn="numbers", mode="branch", select="missing == 'error'", lean="numbersErrorBranch",
+         atoms={"missing == 'error'": ("missingIsError", B), "np.any(self._numbers.numpy() < 0)": ("anyUnknown", B)}),
+    dict(file="data/items.py", cls="ItemList", fn="numbers", mode="branch", select="self._numbers is None", lean="numbersCacheBranch",
+         atoms={"self._numbers": ("cached", O), "self._vocab": ("vocab", O)}),
 ]
 
 SITES["C11"] = SITES["C11"] + SITES["C05"]          # the samplers' fall-back paths must hand the generator on (C11) as well as `test_only` (C05)
